@@ -47,6 +47,14 @@ class QG:
             self.emit("%s = T(%r, schema=(%r, %r)).as_(%r)" % (v, name, "db", "s1", "a" + str(self.nvar)))
         return v
 
+    def class_table(self, cls, names=("t", "u", "v", "w")):
+        """a table created through the query class (`MySQLQuery.Table('t')`): its select() / update() / insert() start a
+        statement of that class"""
+        name = self.r.choice(names)
+        v = self.var("t")
+        self.emit("%s = %s.Table(%r)" % (v, QNAMES[cls], name))
+        return v
+
     def eg(self, pool):
         g = gen.G(self.r, tables=False, strings=self.strings, allow_params=self.allow_params,
                   allow_shift=not self.sqlite_ok)
@@ -54,6 +62,9 @@ class QG:
         return g
 
     def fields_of(self, tv, cols=("a", "b", "c", "x")):
+        if tv.startswith("q") and self.r.random() < 0.3:
+            # the other spellings of a column of a sub-query
+            return [self.r.choice(["%s[%r]", "%s.field(%r)"]) % (tv, c) for c in cols]
         return ["%s.%s" % (tv, c) for c in cols]
 
     # -- SELECT
@@ -77,6 +88,13 @@ class QG:
                 srcs.append(tv)
                 pool += self.fields_of(tv)
         head = "%s.from_(%s)" % (qn, srcs[0])
+        table_entry = None
+        if nfrom == 1 and srcs[0].startswith("t") and r.random() < 0.1 and not self.portable:
+            # Table.select(...): the statement starts from a table created through the query class
+            table_entry = self.class_table(cls)
+            pool = self.fields_of(table_entry)
+            srcs = [table_entry]
+            head = None
         for s in srcs[1:]:
             chain.append(".from_(%s)" % s)
         # joins
@@ -97,7 +115,11 @@ class QG:
                 crit = "(%s == %s)" % (r.choice(pool), r.choice(jpool))
                 if r.random() < 0.3:
                     crit = "(%s & %s)" % (crit, g.crit(1))
-                chain.append(".join(%s, JoinType.%s).on(%s)" % (jt, how, crit))
+                if r.random() < 0.25 and how != "cross":
+                    # the shortcut methods (inner_join, left_join, … hash_join)
+                    chain.append(".%s_join(%s).on(%s)" % (how, jt, crit))
+                else:
+                    chain.append(".join(%s, JoinType.%s).on(%s)" % (jt, how, crit))
             elif x < 0.9:
                 chain.append(".join(%s, JoinType.%s).using(%r)" % (jt, how, r.choice(["a", "b"])))
             else:
@@ -133,7 +155,12 @@ class QG:
             sel.append(e)
         if r.random() < 0.08:
             sel = ["'*'"] if r.random() < 0.5 else ["%s.star" % srcs[0]]
-        chain.append(".select(%s)" % ", ".join(sel))
+        if head is None:
+            head = "%s.select(%s)" % (table_entry, sel[0])
+            if sel[1:]:
+                chain.append(".select(%s)" % ", ".join(sel[1:]))
+        else:
+            chain.append(".select(%s)" % ", ".join(sel))
         if r.random() < 0.5:
             chain.append(".where(%s)" % g.crit(2))
         if r.random() < 0.2:
@@ -142,6 +169,8 @@ class QG:
             gb = [r.choice(aliases)] if aliases and r.random() < 0.5 else [r.choice(pool)]
             if r.random() < 0.3:
                 gb.append(r.choice(pool))
+            if r.random() < 0.08:
+                gb.append("1")          # GROUP BY <position>
             chain.append(".groupby(%s)" % ", ".join(gb))
             if r.random() < 0.5:
                 chain.append(".having(%s(%s) %s %s)" % (r.choice(["fn.Sum", "fn.Count"]), r.choice(pool),
@@ -174,6 +203,10 @@ class QG:
         out = []
         if r.random() < 0.15:
             out.append(".for_update()")
+        if r.random() < 0.08:
+            out.append(r.choice([".force_index(terms.Index('ix1'), 'ix2')", ".use_index('ix3')", ".use_index(terms.Index('ix4'))"]))
+        if r.random() < 0.05:
+            out.append(".pipe(lambda q_, n_: q_.limit(n_), %d)" % r.randint(0, 4))
         if cls == "mysql":
             if r.random() < 0.3:
                 out.append(".modifier(%r)" % r.choice(["SQL_CALC_FOUND_ROWS", "HIGH_PRIORITY"]))
@@ -229,7 +262,10 @@ class QG:
         cols = ["a", "b", "c", "x"][:ncol]
         chain = [".into(%s)" % tv]
         if r.random() < 0.7:
-            chain.append(".columns(%s)" % ", ".join(repr(c) for c in cols))
+            if r.random() < 0.2:
+                chain.append(".columns([%s])" % ", ".join(repr(c) for c in cols))      # the columns given as one list
+            else:
+                chain.append(".columns(%s)" % ", ".join(repr(c) for c in cols))
         kind = r.random()
         meth = "insert"
         if r.random() < 0.15:
@@ -286,6 +322,13 @@ class QG:
         pool = self.fields_of(tv)
         g = self.eg(pool)
         chain = [".update(%s)" % tv]
+        entry = None
+        if r.random() < 0.1 and not self.portable:
+            entry = self.class_table(cls)
+            tv = entry
+            pool = self.fields_of(tv)
+            g = self.eg(pool)
+            chain = [".update()"]
         for _ in range(r.randint(1, 3)):
             fld = r.choice(pool) if r.random() < 0.6 else repr(r.choice(["a", "b", "c"]))
             chain.append(".set(%s, %s)" % (fld, self.value(g)))
@@ -301,9 +344,11 @@ class QG:
             if r.random() < 0.15:
                 chain.append(".limit(%d)" % r.randint(0, 3))
             if cls == "postgresql" and r.random() < 0.2:
-                chain.append(".returning(%s)" % r.choice(pool))
+                chain.append(".returning(%s)" % r.choice(pool + ["'*'", "%s.star" % tv, "'a'", "1", "fn.Upper(%s)" % r.choice(pool)]))
+                if r.random() < 0.3:
+                    chain.append(".returning(%s)" % r.choice(pool))
         v = self.var("q")
-        self.emit("%s = %s%s" % (v, qn, "".join(chain)))
+        self.emit("%s = %s%s" % (v, entry if entry else qn, "".join(chain)))
         return v
 
     def delete(self, cls=None):
